@@ -94,7 +94,7 @@ HdrInit == /\ wire \in { <<b0>> : b0 \in 0..255 } /\ fr = NoFrame
 GenHdr == phase = "hdr2" =>
   LET b0 == wire[1] IN
   PrintT(ToJson([k |-> "hdr2", b0 |-> b0, fin |-> Bit(b0, 128), rsv |-> <<Bit(b0, 64), Bit(b0, 32), Bit(b0, 16)>>, op |-> b0 % 16,
-                 b1s |-> [i \in 1..256 |-> [need |-> Need(b0, i - 1), mask |-> Bit(i - 1, 128), len7 |-> (i - 1) % 128,
+                 b1s |-> [i \in 1..256 |-> [need |-> Need(b0, i - 1), mask |-> Bit(i - 1, 128), len7 |-> (i - 1) % 128, minlen |-> MinLenFor(i - 1),
                                             two |-> Decode(<<b0, i - 1>>).r]]]))
 \* consistency of Need with Decode on bare headers: a bare header decodes iff nothing is needed and len7 = 0
 HdrLemma == phase = "hdr2" =>
@@ -108,7 +108,7 @@ XorInit == /\ wire \in { <<a>> : a \in 0..255 } /\ fr = NoFrame
 GenXor == phase = "xor" => PrintT(ToJson([k |-> "xor", a |-> wire[1], row |-> [b \in 1..256 |-> wire[1] ^^ (b - 1)]]))
 WireInit == /\ wire \in WiresOf(SmallFrames, BoundaryFrames) /\ fr = NoFrame
             /\ sent = 0 /\ eof = FALSE /\ cons = 0 /\ phase = "wire" /\ res = "lemma"
-GenWire == phase = "wire" => PrintT(ToJson([k |-> "wire", w |-> wire, exp |-> Decode(wire)]))
+GenWire == phase = "wire" => PrintT(ToJson([k |-> "wire", w |-> wire, exp |-> Decode(wire), nonmin |-> NonMinimal(wire)]))
 
 GenAllInit == AbsInit \/ HdrInit \/ XorInit \/ WireInit \/ BigInit \/ HugeInit
 GenAllInv == GenFrame /\ GenHdr /\ GenXor /\ GenWire /\ GenBig /\ GenHuge /\ (phase = "abs" => AbsLemma) /\ HdrLemma
